@@ -166,6 +166,9 @@ def _splice(blocks, locals_, b, callee_j, arg_ops, istack, callee_key):
     blocks[b]["inlined_call"] = callee_key
 
 
+FUSE_PLAIN_LOOPS = True
+
+
 def _fuse_adaptor(blocks, locals_, b, view):
     """`for y in it.filter(p) { .. }`  ==  `for y in it { if !p(&y) { continue }; .. }`,  `for y in it.map(f) { .. }`  ==
     `for x in it { let y = f(x); .. }`  (rust-src core/src/iter/adapters/{filter,map}.rs: `Filter::next = self.iter.find(&mut
@@ -178,9 +181,20 @@ def _fuse_adaptor(blocks, locals_, b, view):
             src = src[2] if src[0] == "ref" else src[1]
         else:
             break
-    if src[0] != "var" or len(src) < 3 or src[2][0] != "call" or src[2][1] not in ("std::iter::Iterator::filter", "std::iter::Iterator::map") or len(src[2]) < 4:
+    if src[0] != "var" or len(src) < 3:
         return False
-    it_local, kind, dbb = src[1], src[2][1].split("::")[-1], src[2][3]
+    cterm = src[2]
+    via_into_iter = None
+    if cterm[0] == "call" and cterm[1] == "std::iter::IntoIterator::into_iter" and len(cterm[2]) == 1 and len(cterm) >= 4:
+        # `for y in it.filter(p)`: the loop iterates into_iter(adaptor), which is the adaptor (impl<I: Iterator> IntoIterator for I)
+        via_into_iter = cterm[3]
+        cterm = cterm[2][0]
+    if cterm[0] != "call" or cterm[1] not in ("std::iter::Iterator::filter", "std::iter::Iterator::map") or len(cterm) < 4:
+        return False
+    kind, dbb = cterm[1].split("::")[-1], cterm[3]
+    if blocks[dbb]["term"]["t"] != "call" or blocks[dbb]["term"]["dest"]["proj"]:
+        return False
+    it_local = blocks[dbb]["term"]["dest"]["l"] if via_into_iter is not None else src[1]
     dt = blocks[dbb]["term"]
     if dt["t"] != "call" or dt["dest"]["proj"] or dt["dest"]["l"] != it_local or len(dt["args"]) != 2 or dt.get("target") is None:
         return False
@@ -224,7 +238,13 @@ def _fuse_adaptor(blocks, locals_, b, view):
     blocks[dbb]["stmts"].append(A(_pl(it_local), {"r": "use", "op": copy.deepcopy(dt["args"][0])}))
     blocks[dbb]["stmts"].append(A(_pl(f_local), {"r": "use", "op": copy.deepcopy(dt["args"][1])}))
     blocks[dbb]["term"] = {"t": "goto", "target": dt["target"]}
+    old_ty = locals_[it_local]["ty"]
     locals_[it_local] = dict(locals_[it_local], ty=self_ty)
+    if via_into_iter is not None and old_ty not in ("?", self_ty):
+        # the loop's own iterator variable (into_iter(adaptor) and its moves) holds the inner iterator now
+        for i_, l_ in enumerate(locals_):
+            if l_.get("ty") == old_ty:
+                locals_[i_] = dict(l_, ty=self_ty)
     # 2. `next` is the inner iterator's
     t["callee"] = dict(t["callee"], resolved={"path": "<%s as std::iter::Iterator>::next" % self_ty, "full": "<%s as std::iter::Iterator>::next" % self_ty, "args": [], "local": False, "kind": "Item"}, args=[self_ty], fused_from=kind)
     # 3. the Some arm
@@ -275,7 +295,7 @@ def inline_body(facts, key, opaque):
             path = ce.get("path")
             if path is None:
                 continue
-            if path == "std::iter::Iterator::next" and t.get("model") and len(t["args"]) == 1 and not ce.get("fused"):
+            if path == "std::iter::Iterator::next" and (t.get("model") or FUSE_PLAIN_LOOPS) and len(t["args"]) == 1 and not ce.get("fused"):
                 if view is None:
                     view = Body(facts, key, dict(j, blocks=blocks, locals=locals_), ssa=False)
                 if _fuse_adaptor(blocks, locals_, b, view):
@@ -874,6 +894,21 @@ def inlined_facts(facts, opaque):
             report.setdefault(k, []).append("rolled-map-loop")
             for ck, cj in made:
                 synth[ck] = cj
+    # `for chunk in enc { f.write_str(chunk)? }` -> Display::fmt(&enc, f)? (purlsa.roll.roll_display_loops)
+    for k, j in facts.j["bodies"].items():
+        if j["kind"] not in ("fn", "closure"):
+            continue
+        cur = newb.get(k, j)
+        if not any(str(l.get("ty", "")).startswith(tuple(roll.DISPLAY_ITERS)) for l in cur["locals"]):
+            continue
+        cand = dict(cur, blocks=copy.deepcopy(cur["blocks"]), locals=copy.deepcopy(cur["locals"]))
+        view = Body(facts, k, cand, ssa=False)
+        if not view.loops():
+            continue
+        if roll.roll_display_loops(view, k):
+            cand["blocks"], cand["locals"] = view.blocks, view.locals
+            newb[k] = cand
+            report.setdefault(k, []).append("rolled-display-loop")
     # flag loops -> Iterator::any with a synthetic closure (purlsa.roll.roll_flag_loops)
     for k, j in facts.j["bodies"].items():
         if j["kind"] not in ("fn", "closure"):
